@@ -36,7 +36,8 @@ Definition field_spec (acc: cls -> list nat -> verdict) (cl: list cls) (s: site)
   (forall c, o = OInst c <-> carries cl s c t /\ v c = VAccept)
   /\ (forall c, o = ORej c <-> carries cl s c t /\ v c = VReject)
   /\ (o = ONotFound <-> forall c, ~ carries cl s c t)
-  /\ o <> OMissing /\ o <> OBadSite /\ (forall c, o <> OKeyErr c) /\ (forall cs, o <> OMany cs) /\ o <> ONotDict.
+  /\ o <> OMissing /\ o <> OBadSite /\ (forall c, o = OKeyErr c <-> carries cl s c t /\ v c = VKeyError)
+  /\ (forall cs, o <> OMany cs) /\ o <> ONotDict /\ o <> OCrash.
 
 (* what the property demands in no-field mode (acceptance abstract) *)
 Definition nofield_spec (acc: cls -> list nat -> verdict) (cl: list cls) (s: site) (present: list nat) (o: outcome) : Prop :=
